@@ -431,6 +431,50 @@ def run(ctx):
                         ctx.ob('C08.D4', q, 'delivers-matching-reply', ok,
                                'the call must complete with the reply '
                                'message that carried the matching serial')
+    # the deadline handler runs because the timer FIRED: whatever it decides,
+    # the entry (which holds that dead timer) must leave the table - a later
+    # connectionLost cancels every timer it finds there, and cancelling a
+    # fired DelayedCall raises AlreadyCalled out of the loss handling
+    if timer_cb:
+        tfi = prog.func(timer_cb)
+        tps = tfi.params()
+        tkey = ('param', tps[1]) if len(tps) > 1 else None
+        for p in paths_of(timer_cb):
+            if p.outcome == 'raise':
+                continue
+            ctx.ob('C08.D3', timer_cb, 'fired-timer-leaves-the-table',
+                   removed(p.trace, (), tkey),
+                   'a path of the deadline handler returns without removing '
+                   'the entry (condition: %s): the table then holds a timer '
+                   'that has already fired, and connectionLost raises '
+                   'AlreadyCalled when it cancels it - the remaining calls '
+                   'are never failed' % [
+                       (term_str(c)[:40], pol) for c, pol in p.cond[:3]])
+    # a reply for a serial that is no longer pending (late, duplicate, never
+    # asked for) is ignored: the lookup default must fit the unpacking
+    for q in handlers:
+        hfi = prog.func(q)
+        for node in prog._iter_scope(hfi.node):
+            if isinstance(node, ast.Assign) and len(node.targets) == 1 and \
+                    isinstance(node.targets[0], (ast.Tuple, ast.List)) and \
+                    isinstance(node.value, ast.Call) and \
+                    isinstance(node.value.func, ast.Attribute) and \
+                    node.value.func.attr in ('get', 'pop') and \
+                    isinstance(node.value.func.value, ast.Attribute) and \
+                    node.value.func.value.attr == TABLE:
+                want = len(node.targets[0].elts)
+                dflt = node.value.args[1] if len(node.value.args) > 1 \
+                    else None
+                okd = isinstance(dflt, (ast.Tuple, ast.List)) and \
+                    len(dflt.elts) == want
+                ctx.ob('C08.D4', q, 'unknown-serial-is-ignored', okd,
+                       'the entry is unpacked into %d names but the lookup '
+                       'default for a serial that is not pending is %s: a '
+                       'late or unsolicited reply raises TypeError out of '
+                       'dataReceived and the connection is dropped' % (
+                           want, ast.unparse(dflt) if dflt is not None
+                           else ('None' if node.value.func.attr == 'get'
+                                 else 'missing (KeyError)')))
     ctx.extra['completions_analysed'] = n_fire
     ctx.ob('C08.D3', timer_cb or reg.qualname, 'deadline-handler-completes',
            timer_cb_fired[0] if timer_cb else False,
